@@ -22,7 +22,7 @@ func init() {
 			"(5) the sanitisers overwrite every sensitive field (client token, accessors when configured, request/response data, nested auth, wrap info token/accessors) of a *copy* with the salted-HMAC function's result and return the copy; the map handed to hashMap is the very value the overwrite stores (resolved flow-sensitively at the call, so hashing the input's live map through the not-yet-overwritten copy field is refused); the walker writes back only the callback's result and skips a leaf only for map keys, non-strings, RFC3339 times and a leaf whose *own* current key is in the exemption list; " +
 			"(5b) hashMap hands HashStructure its own map, callback and exemption-list parameters unchanged; the walker's container and index stacks (cs/csKey) are pushed by Map/Slice/MapElem/SliceElem, popped by Exit on the matching location on every path, and written nowhere else; nothing is written into (or handed on from) the copy after hashMap hashed it; " +
 			"(4b) the formatter sanitises request data with LogInput.NonHMACReqDataKeys and response data with LogInput.NonHMACRespDataKeys, and (2b) each of these lists is nil or read from the cache of the mount entry matched for the request path under the very key under which MountEntry.SyncCache publishes Config.AuditNonHMACRequestKeys / AuditNonHMACResponseKeys; (2d) wherever a live mount entry's Config or one of its two exemption lists is assigned, SyncCache on that entry follows on every path, and where the assignment registers a deferred restore (tune rollback) the entry's SyncCache is itself deferred and registered before that restore, so the cache is filled from what remains after a rollback; (2c) no field, auth block or data map of a logical.Response is written after the response audit in Core.handleCancelableRequest; " +
-			"(3b) AuditedHeadersConfig.ApplyConfig returns a nil header map when hashing a value fails, replaces values by the hash function's result only behind the header's HMAC setting, and publishes the slice it replaced them in; " +
+			"(4c) where Core.CheckToken rebuilds req.Headers[Authorization], a value is kept only across strings.HasPrefix(<that value>, <the scheme prefix http.getTokenFromReq strips the token from>) being false (operands: the header value itself and that constant — not req.ClientToken), and every success return for ClientTokenSource == ClientTokenFromAuthzHeader lies after the rebuilt slice is stored back (or the header is absent); (3b) AuditedHeadersConfig.ApplyConfig returns a nil header map when hashing a value fails, replaces values by the hash function's result only behind the header's HMAC setting, and publishes the slice it replaced them in; " +
 			"(6) every builtin audit device's LogRequest/LogResponse returns nil only across the success edge of AuditFormatter.FormatRequest/FormatResponse (tabled: the file device set to discard), called with the device's own formatConfig and the input it was given.",
 		NotDecided: "that reflectwalk visits every leaf of every payload shape (runtime traversal); absence of secrets in fields logged by design (paths, metadata, policy names, remote address); behaviour of individual audit devices.",
 		Run:        runC11,
